@@ -29,7 +29,13 @@ def fini_mp(processes, t_fetch):
                 pass
         finally:
             if hasattr(process, 'close'):
-                process.close()
+                try:
+                    process.close()
+                except ValueError:
+                    # the worker has exited (its end marker was collected) but another thread is reaping it at
+                    # this very moment - starting the workers of a second parallelize step polls all children -
+                    # so it still looks alive here; there is nothing left to release by hand
+                    pass
     t_fetch.join()
 
 
